@@ -39,8 +39,8 @@
                    YNone   Park with ignore_cancel: nothing
                    YSelect EventSender: get_co_para().is_some() -> Cancel panic (a second panic aborts: no step)
                    YClear  RawIoBlock (wait_io): [cfg fixW: get_co_para, since commit 172d8b3] clear_cancel_bit  -> PAfter k | PBody
-     After c       the rest of the blocking function (table consumes): park_timeout / sleep / fast park /
-                   co_io_result call get_co_para (the verdict); yield_now, spsc recv, select send and
+     After c       the rest of the blocking function (table consumes): park_timeout / sleep / fast park (src/sync/fast_blocking.rs,
+                   at present not compiled into the crate) / co_io_result call get_co_para (the verdict); yield_now, spsc recv, select send and
                    wait_io do not                                                                     -> PBody
      Finish c      the closure returns or the unwinding reaches the generator                          -> PEnd
      DPut c keep   Done::drop_coroutine: pool.put(co) (or the generator is discarded: pool full / other
